@@ -55,6 +55,10 @@ CLAIMED = {
           "Each case builds three related types (a generated tree, 1-3 mutations of it, further mutations or an unrelated tree) and checks for every ordered pair: is_compatible => every enumerated value of the left type inhabits the right one; a first-order value in both => types_overlap; transitivity over all triples; intersect_types keeps every common value; compute_complement keeps every value outside the right operand. Exploration only (tuple depth <= 3, <= 28 values per node).",
           "Trusts the reading of Type::Cycle(k) as the k-th enclosing union/function type (as typing.rs documents). Function values are the canonical function of a callable type and only 'not a member' verdicts about them are used. Six recorded findings, all rooted in context-dependent type ids of recursive types, are attributed by structural features of the operands (see known_findings.json) and re-witnessed each run; narrowing helpers are reached through hook H6.",
           "DESIGN.md §4 C09"),
+  "C10": ("harvested programs + proptest-generated closure and module programs; oracle: differential across packaging variants (as compiled / tree-shaken / JSON round trip / CLI entry extraction with capture injection / merged into an environment behind other programs) and import vs the module body evaluated in place",
+          "Stream 1 runs every harvested program that compiles in six packaging variants behind 0-3 other programs; stream 2 generates programs evaluating to a nilary closure over bindings (bignums, constant/heap binaries, tuples, closures capturing closures) and pushes them through the CLI's extract-entry path, tree-shaking, JSON and a merge, against the closure applied in source; stream 3 generates modules (optionally importing a module) and imports them in five forms against the body spliced in place. All results must be structurally equal. Exploration only.",
+          "The `quiv compile`/`quiv run` subprocess path is replicated in-process, not executed. Function values compare as opaque (they are also called). Timing- and I/O-dependent harvested programs are discarded. A supervising process turns a death of the check process (stack overflow/abort in the checked code) into a reported case.",
+          "DESIGN.md §4 C10"),
   # id: (technique, level text, level note, design_ref)
   "C18": ("proptest-generated inputs + corpus mutation (prefix/token delete/dup/subst/transpose/wide-char) + bracket nests to depth 100; oracle: no panic, located error, deterministic production budget",
           "Generated-input search over front-end inputs: every run parses ~10^5 generated/mutated texts and compiles the accepted ones, checking no panic, error position inside the input on a char boundary with consistent line/column, and a polynomial production budget via hook H5. Exploration only: absence is not established.",
